@@ -30,9 +30,6 @@ Record cops (X : Type) := mk_cops {
 }.
 Arguments mk_cops {X}. Arguments k_bnd {X}. Arguments k_tig {X}. Arguments k_cmp {X}. Arguments k_err {X}. Arguments k_mu {X}.
 
-Definition amachine_of {X} (C : cops X) : amachine :=
-  {| ASt := X; a_bnd := k_bnd C; a_tig := k_tig C; a_cmp := k_cmp C; a_err := k_err C; a_mu := k_mu C |}.
-
 (* apply a state-changing read to every element, left to right *)
 Fixpoint thread {X R} (f : X -> X * R) (l : list X) : list X * list R :=
   match l with
@@ -514,6 +511,11 @@ Section Universal.
       let b := snd p in
       if errA (fst p) then None else if zdefb b then Some (fst b) else None.
   End Ops.
+
+  (* the universal machine at depth d as an API machine (ApiSpec.amachine) *)
+  Definition AM (d : nat) : amachine :=
+    {| ASt := ast; a_bnd := k_bnd (opsA d); a_tig := k_tig (opsA d); a_cmp := k_cmp (opsA d);
+       a_eds := fun s => fst (listing d s); a_err := errA; a_mu := muA |}.
 
   (* ---------------------------------------------------------------- the final nested script (scriptlib.ser_edit):
      sub-edits are listed (which finalises an EditDistance), serialised recursively, then the edit itself is tightened
